@@ -3,3 +3,4 @@ CONSTANTS
   Window <- WindowS
   Quanta <- QuantaS
 INVARIANT PrintShape
+INVARIANT PrintLazy
